@@ -169,6 +169,10 @@ func NewWritable(writer io.Writer, roots []cid.Cid, opts ...carv2.Option) (Writa
 }
 
 func newWritable(writer io.Writer, roots []cid.Cid, opts ...carv2.Option) (*StorageCar, error) {
+	if roots != nil {
+		// Roots() keeps answering after the caller's slice has been put to other use.
+		roots = append(make([]cid.Cid, 0, len(roots)), roots...)
+	}
 	sc := &StorageCar{
 		writer: &positionTrackingWriter{w: writer},
 		idx:    index.NewInsertionIndex(),
